@@ -28,6 +28,73 @@ CHECKS = {
             'spelling tolerated by denotation', '4/C02'),
 }
 
+CHECKS.update({
+    'C04': ('exploration',
+            'runtime monitoring: reference model (tree-derived effective '
+            'encoding) vs real writer bytes and real reader records over '
+            'enumerated + random container histories; reader generator '
+            'locals probed for diagnostics',
+            'All container histories up to a bounded length x all '
+            'declare/omit masks are executed, random ones up to 40 '
+            'containers beyond; encodings are pairwise distinguishing so a '
+            'wrong scope is observable in bytes / text.',
+            'effective encoding = own option else nearest declaring '
+            'ancestor; diffs never inherit', '4/C04'),
+    'C07': ('fault_enumeration',
+            'fault enumeration: every truncation point of every base file + '
+            'length perturbations, prefix-of-intact-records oracle, stream '
+            'monitor keys the short-read mechanism',
+            'Every cut 0..len(f) of each generated file is executed against '
+            'the real reader; crash points are enumerated completely per '
+            'file, files are sampled.',
+            'intact records from the spec serializer layout; known findings '
+            'F8a/F8b (short read accepted) are reported, not alarmed',
+            '4/C07'),
+    'C08': ('fault_enumeration',
+            'fault enumeration: corruption catalogue + sys.monitoring '
+            'fail-points; exception-family / message / closed-stream oracle',
+            '15 corruption operators over generated files drive the real '
+            'reader, DiffX.from_bytes and DiffX.from_stream; an exception is '
+            'injected at every eligible line of sampled loads.',
+            'linenum bound uses LF count (input length for wide encodings); '
+            'watchdog firing is inconclusive', '4/C08'),
+    'C09': ('exploration',
+            'bounded-exhaustive call histories on the real writer over an '
+            'instrumented stream: hierarchy model + zero-write-window + '
+            'append-only + "bytes == serializer(accepted calls only)"',
+            'All histories over the 5 calls up to length 7 (quick) / 9 '
+            '(thorough) with a must-raise invalid-argument variant before '
+            'every step and hostile option values at every model state; '
+            'random histories of length 10-60 beyond.',
+            'exception class of a rejection is free; ..meta -> .change is a '
+            'don\'t-care', '4/C09'),
+    'C10': ('exploration',
+            'bounded-exhaustive section-id sequences read by the real '
+            'reader vs the specification hierarchy relation',
+            'All id sequences up to length 3/4 over the 24 level/name '
+            'combinations and all legal paths up to length 10/13 extended '
+            'by each id.',
+            '..meta -> .change is a don\'t-care (spec texts disagree)',
+            '4/C10'),
+    'C11': ('exploration',
+            'bounded-exhaustive header lines read by the real reader vs a '
+            'hand-written recogniser of the spec header grammar',
+            'All tails up to length 4/5 over a 15-symbol alphabet, all heads '
+            'up to 6 symbols, token-level option lists, single-byte '
+            'substitution sweeps over long valid headers.',
+            'python-only int spellings and duplicate keys tolerated',
+            '4/C11'),
+    'C16': ('exploration',
+            'bounded-exhaustive byte strings through the real split_lines; '
+            'identities evaluated by the icontract post-condition functions '
+            '+ scanning reference splitter',
+            'All strings up to length 8 (quick) / 10 (thorough) over '
+            '{CR,LF,NUL,space,a} x 10 newline sequences x both modes; random '
+            'strings up to 4 kB; the same conditions run as a contract in '
+            'every other check.',
+            'newline sequences have no self-overlap', '4/C16'),
+})
+
 NOT_YET = {}
 
 
